@@ -91,6 +91,9 @@ def cfgs(tier):
     A = line_alphabet()
     out = [(b'[snoopy]\n' + l + b'\n', 'all') for l in A]
     out += [(l + b'\n', 'one') for l in A[:5]]           # without a section header
+    # every line also with error logging on (the error path re-enters the output and the formatter)
+    out += [(b'[snoopy]\nerror_logging = yes\n' + l + b'\n', 'one') for l in A]
+    out += [(b'[snoopy]\n' + l + b'\nerror_logging = yes\n', 'one') for l in A if groups(l) in ('out', 'msg')]
     out.append((None, 'all'))
     pairs = list(itertools.product(A, repeat=2))
     if tier == 'quick':
